@@ -27,7 +27,8 @@ Inductive action :=
 | ABad (raw : str)       (* observation only: a datagram that is no well-formed ERROR for the requester *)
 | ADead.                 (* observation only: the server did not answer the liveness probe that followed *)
 
-Inductive exn := StructError | ValueError | OSError.
+(* Injected cls: any other Exception subclass (RuntimeError, MemoryError, KeyError, a custom class ...) *)
+Inductive exn := StructError | ValueError | OSError | Injected (cls : N).
 (* an exception carries what had been done before it was raised *)
 Inductive res (A : Type) := Ok (a : A) | Exc (e : exn) (done : list action).
 Arguments Ok {A}. Arguments Exc {A}.
@@ -66,11 +67,36 @@ Definition can_handle (h : handler) (fn : str) : bool :=
 Definition send_reply (sendable : bool) (code : N) : res (list action) :=
   if sendable then Ok [ASendError code] else Exc OSError [ASendError code].
 
+(* Fault dimension 2: a callee of the request-port thread raises an exception that has nothing to
+   do with the bytes of the datagram.  Stations, in the order the code reaches them:
+   - SLog: the log statement of the branch taken, with its eagerly evaluated argument
+     socket_address_to_str(req_addr) (every branch of _process_request has one, and it always
+     comes BEFORE the reply is sent resp. the transfer object is constructed);
+   - SPrepare i / SCanHandle i: prepare_context / can_handle of the i-th request handler;
+   - SHandleLookup: the attribute access request_handler.handle of the accepting handler;
+   - SThreadStart: threading.Thread.start() at the end of _TftpReadRequest.__init__
+     (RuntimeError "can't start new thread"). *)
+Inductive station := SLog | SPrepare (i : nat) | SCanHandle (i : nat) | SHandleLookup | SThreadStart.
+Definition station_eqb (a b : station) : bool :=
+  match a, b with
+  | SLog, SLog | SHandleLookup, SHandleLookup | SThreadStart, SThreadStart => true
+  | SPrepare i, SPrepare j | SCanHandle i, SCanHandle j => Nat.eqb i j
+  | _, _ => false
+  end.
+Definition fault := option (station * exn).
+(* control reaches station [st]: the injected exception is raised there *)
+Definition at_station (f : fault) (st : station) : res unit :=
+  match f with
+  | Some (st', e) => if station_eqb st' st then Exc e [] else Ok tt
+  | None => Ok tt
+  end.
+
 (* _TftpReadRequest.__init__ (runs in the request-port thread):
    - raises ValueError for any mode but netascii and octet;
    - validates blksize / timeout with _REGEXP_POSITIVE_INT.fullmatch and only then calls int().
    int() is modelled pessimistically: it raises ValueError on everything but a non-empty string
-   of ASCII digits (Python accepts more: surrounding white space, '_', a sign, other digits). *)
+   of ASCII digits (Python accepts more: surrounding white space, '_', a sign, other digits);
+   - finally starts the transfer thread. *)
 Definition regexp_positive_int (s : str) : bool :=
   match s with c :: r => (49 <=? c) && (c <=? 57) && forallb is_digit r | [] => false end.
 Definition py_int (s : str) : res N :=
@@ -83,62 +109,110 @@ Definition ctor_option (o : list (str * str)) (name : str) : res unit :=
   | Some s => if regexp_positive_int s then bind (py_int s) (fun _ => Ok tt) else Ok tt
   | None => Ok tt
   end.
-Definition start_transfer (fn : str) (m : mode) (o : list (str * str)) (i : nat) : res (list action) :=
+(* request_handler.handle, then _handle_read: log, construct, start the thread *)
+Definition start_transfer_f (f : fault) (fn : str) (m : mode) (o : list (str * str)) (i : nat) : res (list action) :=
+  bind (at_station f SHandleLookup) (fun _ =>
+  bind (at_station f SLog) (fun _ =>
   match m with
   | Mail => Exc ValueError []
   | _ => bind (ctor_option o (lit "blksize")) (fun _ =>
-         bind (ctor_option o (lit "timeout")) (fun _ => Ok [AStart fn m o i]))
-  end.
+         bind (ctor_option o (lit "timeout")) (fun _ =>
+         bind (at_station f SThreadStart) (fun _ => Ok [AStart fn m o i])))
+  end)).
 
 (* for request_handler in self._request_handlers: ... return *)
-Fixpoint handler_loop (sendable : bool) (hs : list handler) (i : nat) (fn : str) (m : mode) (o : list (str * str))
-  : res (list action) :=
+Fixpoint handler_loop_f (f : fault) (sendable : bool) (hs : list handler) (i : nat) (fn : str) (m : mode)
+  (o : list (str * str)) : res (list action) :=
   match hs with
-  | [] => send_reply sendable 1                   (* FILE_NOT_FOUND *)
-  | h :: r => if can_handle h fn then start_transfer fn m o i else handler_loop sendable r (S i) fn m o
+  | [] => bind (at_station f SLog) (fun _ => send_reply sendable 1)      (* FILE_NOT_FOUND *)
+  | h :: r =>
+      bind (at_station f (SPrepare i)) (fun _ =>
+      bind (at_station f (SCanHandle i)) (fun _ =>
+      if can_handle h fn then start_transfer_f f fn m o i else handler_loop_f f sendable r (S i) fn m o))
   end.
 
-Definition process_read_request (sendable : bool) (hs : list handler) (d : str) : res (list action) :=
+Definition process_read_request_f (f : fault) (sendable : bool) (hs : list handler) (d : str) : res (list action) :=
   match decode_read_request d with
-  | Exc ValueError _ => send_reply sendable 4     (* except ValueError: ILLEGAL_OPERATION *)
+  | Exc ValueError _ => bind (at_station f SLog) (fun _ => send_reply sendable 4)   (* except ValueError *)
   | Exc e done => Exc e done
   | Ok (fn, m, o) =>
       match m with
-      | Mail => send_reply sendable 4
-      | _ => handler_loop sendable hs O fn m o
+      | Mail => bind (at_station f SLog) (fun _ => send_reply sendable 4)
+      | _ => handler_loop_f f sendable hs O fn m o
       end
   end.
 
-Definition process_request (sendable : bool) (hs : list handler) (d : str) : res (list action) :=
-  if (List.length d <? 2)%nat then Ok [] else
+Definition process_request_f (f : fault) (sendable : bool) (hs : list handler) (d : str) : res (list action) :=
+  if (List.length d <? 2)%nat then bind (at_station f SLog) (fun _ => Ok []) else
   bind (unpack_u16 d) (fun n =>
   match opcode_of n with
-  | Exc ValueError _ => Ok []                     (* except ValueError: unknown opcode ignored *)
+  | Exc ValueError _ => bind (at_station f SLog) (fun _ => Ok [])        (* unknown opcode ignored *)
   | Exc e done => Exc e done
-  | Ok OpRRQ => process_read_request sendable hs d
-  | Ok OpWRQ => send_reply sendable 2             (* ACCESS_VIOLATION *)
-  | Ok _ => send_reply sendable 4                 (* ILLEGAL_OPERATION *)
+  | Ok OpRRQ => process_read_request_f f sendable hs d
+  | Ok OpWRQ => bind (at_station f SLog) (fun _ => send_reply sendable 2)  (* ACCESS_VIOLATION *)
+  | Ok _ => bind (at_station f SLog) (fun _ => send_reply sendable 4)      (* ILLEGAL_OPERATION *)
   end).
 
 (* one iteration of TftpServer._run: `except Exception: logger.exception(...)`, then the loop goes on *)
-Definition serve_one (sendable : bool) (hs : list handler) (d : str) : list action :=
-  match process_request sendable hs d with Ok a => a | Exc _ done => done ++ [ALogExc] end.
+Definition serve_one_f (f : fault) (sendable : bool) (hs : list handler) (d : str) : list action :=
+  match process_request_f f sendable hs d with Ok a => a | Exc _ done => done ++ [ALogExc] end.
 
-(* TftpServer._run over the datagrams that arrive: (requester can be replied to, datagram).
-   [break_on_oserror] is NOT what the code does; it is the behaviour of a loop that treats an
-   OSError from anywhere in the iteration as a dead server socket. *)
+(* without injected faults *)
+Definition start_transfer := start_transfer_f None.
+Definition handler_loop := handler_loop_f None.
+Definition process_read_request := process_read_request_f None.
+Definition process_request := process_request_f None.
+Definition serve_one := serve_one_f None.
+
+(* TftpServer._run over the datagrams that arrive: (fault, requester can be replied to, datagram).
+   What the loop does with an exception that escapes _process_request: the code logs it and goes
+   on for EVERY Exception; the other policies are behaviours the code does not have. *)
 Definition MAX_REQUEST_PACKET_SIZE : nat := 512.
-Fixpoint run_loop (break_on_oserror : bool) (hs : list handler) (reqs : list (bool * str)) : list (list action) :=
+Inductive loop_reaction := LogContinue | LogBreak | Escape.
+Definition policy := exn -> loop_reaction.
+Definition catch_all : policy := fun _ => LogContinue.
+Definition break_on_oserror_policy : policy := fun e => match e with OSError => LogBreak | _ => LogContinue end.
+Definition only_oserror_valueerror : policy :=
+  fun e => match e with OSError | ValueError => LogContinue | _ => Escape end.
+Fixpoint run_loop_f (pol : policy) (hs : list handler) (reqs : list (fault * bool * str)) : list (list action) :=
   match reqs with
   | [] => []
-  | (sendable, d) :: r =>
+  | (f, sendable, d) :: r =>
       let d' := firstn MAX_REQUEST_PACKET_SIZE d in
-      match process_request sendable hs d' with
-      | Ok a => a :: run_loop break_on_oserror hs r
-      | Exc OSError done => if break_on_oserror then [done ++ [ALogExc]]
-                            else (done ++ [ALogExc]) :: run_loop break_on_oserror hs r
-      | Exc _ done => (done ++ [ALogExc]) :: run_loop break_on_oserror hs r
+      match process_request_f f sendable hs d' with
+      | Ok a => a :: run_loop_f pol hs r
+      | Exc e done =>
+          match pol e with
+          | LogContinue => (done ++ [ALogExc]) :: run_loop_f pol hs r
+          | LogBreak => [done ++ [ALogExc]]
+          | Escape => [done]
+          end
       end
+  end.
+Definition run_loop (break_on_oserror : bool) (hs : list handler) (reqs : list (bool * str)) : list (list action) :=
+  run_loop_f (if break_on_oserror then break_on_oserror_policy else catch_all) hs
+             (map (fun r => (None, fst r, snd r)) reqs).
+
+(* which faults are reached (declarative reading; theorem process_request_f_spec) *)
+Fixpoint loop_reaches (st : station) (hs : list handler) (i : nat) (fn : str) : bool :=
+  match hs with
+  | [] => station_eqb st SLog
+  | h :: r =>
+      station_eqb st (SPrepare i) || station_eqb st (SCanHandle i) ||
+      (if can_handle h fn
+       then station_eqb st SHandleLookup || station_eqb st SLog || station_eqb st SThreadStart
+       else loop_reaches st r (S i) fn)
+  end.
+Definition reaches (st : station) (hs : list handler) (d : str) : bool :=
+  match d with
+  | hi :: lo :: _ =>
+      if u16 hi lo =? 1 then
+        match decode_rrq d with
+        | Some (fn, Netascii, _) | Some (fn, Octet, _) => loop_reaches st hs O fn
+        | _ => station_eqb st SLog
+        end
+      else station_eqb st SLog
+  | _ => station_eqb st SLog
   end.
 
 (* ---------- specification of the port (property C09, first sentence) ---------- *)
@@ -213,3 +287,18 @@ Definition port_holds (sendable : bool) (hs : list handler) (d : str) (obs : lis
   (if existsb is_dead obs then ["C09:port_stops_serving"%string] else []) ++
   (if (2 <=? List.length core)%nat then ["C09:port_more_than_one_reaction"%string] else []) ++
   (if actions_eqb core spec then [] else ["C09:port_reaction"%string]).
+
+(* with an injected fault that is reached: the exception is logged by the catch-all, nothing is
+   sent, no transfer is started, and the server keeps serving; a fault that is not reached changes
+   nothing *)
+Definition port_holds_f (f : fault) (sendable : bool) (hs : list handler) (d : str) (obs : list action)
+  : list string :=
+  match f with
+  | Some (st, _) =>
+      if reaches st hs d then
+        (if existsb is_dead obs then ["C09:port_stops_serving"%string] else []) ++
+        (if actions_eqb (filter (fun a => negb (is_dead a)) obs) [ALogExc] then []
+         else ["C09:port_fault_reaction"%string])
+      else port_holds sendable hs d obs
+  | None => port_holds sendable hs d obs
+  end.
